@@ -360,7 +360,7 @@ def search(run: Run):
 def main():
     run = Run(
         PID,
-        ["RV.Props.C17", "RV.Bridge.Detect"],
+        ["RV.Props.C17", "RV.Bridge.Detect", "RV.Bridge.DetectProps"],
         ["RV/Model/Detectors.lean"],
         "Lean 4 induction over the history (state invariants of the sliding deques and the fading accumulator), "
         "differential correspondence with the real detector objects via their test= hook",
